@@ -18,7 +18,10 @@ import (
 	"flag"
 	"fmt"
 	"math/rand"
+	"path/filepath"
 	"strings"
+	"sync"
+	"sync/atomic"
 	"time"
 
 	"zrverif/trace"
@@ -36,6 +39,7 @@ type csim struct {
 	trig    bool
 	notes   []string
 	failWhy string
+	quiet   int32 // the unrecorded noise clients pause while a barrier is taken
 	snapMax uint64
 }
 
@@ -198,6 +202,8 @@ func (s *csim) restart(victim int, env ...string) (*vchild, string, error) {
 }
 
 func (s *csim) barrierAndDump() error {
+	atomic.StoreInt32(&s.quiet, 1)
+	defer atomic.StoreInt32(&s.quiet, 0)
 	if !s.cl.settle(90 * time.Second) {
 		return envErr("group did not settle in time")
 	}
@@ -292,6 +298,13 @@ func crashsim(args []string) error {
 	if *delay > 0 {
 		cl.env = append(cl.env, fmt.Sprintf("VERIF_CRASH_DELAY_MS=%d", *delay))
 	}
+	cl.extraFor = map[int][]string{}
+	if *kind == "instpurge" {
+		// only the follower under test takes snapshots every 8 entries; the other two every 3000
+		for i := 1; i <= *n; i++ {
+			cl.extraFor[i] = []string{"-snapcount", "3000", "-snapcatchup", "10"}
+		}
+	}
 	s := &csim{cl: cl, h: &history{}, rng: rand.New(rand.NewSource(*seed)), solo: *n == 1}
 	s.w = newWorkload(cl, s.h, *seed, *clients)
 	s.w.think = *think
@@ -324,6 +337,10 @@ func crashsim(args []string) error {
 					}
 					return
 				default:
+				}
+				if atomic.LoadInt32(&s.quiet) == 1 {
+					time.Sleep(20 * time.Millisecond)
+					continue
 				}
 				if c == nil {
 					var err error
@@ -564,6 +581,103 @@ func crashsim(args []string) error {
 			}
 			restartOK = ok
 		}
+
+	case "instpurge":
+		// Directed schedule for the model counterexample of MC_ZNode_install_code.cfg (3 replicas,
+		// KeepBackup 1): follower F has a recorded snapshot s1; it comes back far behind, replays more
+		// than 5 x SnapCount entries (so a local snapshot s2 starts at the end of the replay) and is then
+		// sent the leader's snapshot s3.  Its raft goroutine is held right after persistRaftState wrote
+		// the snapshot file + WAL marker of s3 and told the store the new latest-snapshot index (hook
+		// persist.snap, before wal.Save); the process dies when the local snapshot goroutine has its
+		// checkpoint (hook snap.created + 40 ms, the checkpoint purge of that backup has run by then).
+		ld := s.leader()
+		if ld == 0 {
+			return fail(envErr("no leader"))
+		}
+		f := s.survivors(ld)[0]
+		hammer := func(d time.Duration, tag string) {
+			var wg sync.WaitGroup
+			end := time.Now().Add(d)
+			for i := 0; i < 16; i++ {
+				wg.Add(1)
+				go func(i int) {
+					defer wg.Done()
+					c, err := dialResp(cl.redisPort(ld), time.Second)
+					if err != nil {
+						return
+					}
+					defer c.close()
+					for j := 0; time.Now().Before(end); j++ {
+						if _, err := c.do(2*time.Second, "set", fmt.Sprintf("%sn%s%d_%d", keyPrefix, tag, i, j), "x"); err != nil {
+							if _, isReply := err.(respErr); !isReply {
+								return
+							}
+						}
+					}
+				}(i)
+			}
+			wg.Wait()
+		}
+		cl.kids[f].kill9()
+		s.recordDied(f, "none", 0, "kill")
+		cl.extraFor[f] = []string{"-snapcount", "8"}
+		if _, res, err := s.restart(f); err != nil || res != "ready" {
+			return fail(envErr("follower did not restart (0)"))
+		}
+		s.h.add(trace.M{"ev": "restarted", "n": f, "ok": true, "why": ""})
+		s.w.setTargets([]int{ld})
+		s.w.run(30) // F (SnapCount 8) records its first snapshots
+		s.w.wait()
+		for t := 0; t < 100; t++ { // until a snapshot file of F exists (and its WAL marker, written right after)
+			if m, _ := filepath.Glob(filepath.Join(cl.root, fmt.Sprint(f), "default-0", fmt.Sprintf("snap-%d", f), "*.snap")); len(m) > 0 {
+				break
+			}
+			time.Sleep(50 * time.Millisecond)
+		}
+		time.Sleep(300 * time.Millisecond)
+		cl.kids[f].kill9()
+		s.recordDied(f, "none", 0, "kill")
+		cl.extraFor[f] = []string{"-snapcount", "1000000"}
+		if _, res, err := s.restart(f); err != nil || res != "ready" {
+			return fail(envErr("follower did not restart (1)"))
+		}
+		s.h.add(trace.M{"ev": "restarted", "n": f, "ok": true, "why": ""})
+		hammer(time.Duration(*noise)*100*time.Millisecond, "a") // entries F keeps in its WAL without a snapshot of its own
+		s.w.run(20)
+		s.w.wait()
+		cl.kids[f].kill9()
+		s.recordDied(f, "none", 0, "kill")
+		// the leader moves on until its own snapshot lies beyond F's log
+		for t := 0; t < 20; t++ {
+			hammer(time.Second, fmt.Sprintf("b%d", t))
+			st, ok := cl.kids[ld].status(2 * time.Second)
+			if ok && st.LastSnapIndex > 0 && st.Applied-st.LastSnapIndex < 2000 && st.LastSnapIndex > 3000 {
+				break
+			}
+		}
+		cl.extraFor[f] = []string{"-snapcount", "8"}
+		k, res, err := s.restart(f, "VERIF_HOLD=persist.snap:1", "VERIF_CRASH=snap.created:1", "VERIF_CRASH_DELAY_MS=40")
+		if err != nil {
+			return fail(err)
+		}
+		if res == "ready" {
+			ln := k.waitLine(40*time.Second, "DIED ", "HELD ")
+			s.notes = append(s.notes, "first report after start: "+ln)
+			if strings.HasPrefix(ln, "HELD ") {
+				ln = k.waitLine(15*time.Second, "DIED ")
+				s.notes = append(s.notes, "then: "+ln)
+			}
+			if strings.HasPrefix(ln, "DIED ") {
+				s.trig = true
+			}
+		}
+		k.kill9()
+		s.recordDied(f, "persist.snap+snap.created", 1, "hold")
+		ok, err := s.cleanRestartAndCheck(f, *phase2)
+		if err != nil {
+			return fail(err)
+		}
+		restartOK = ok
 
 	case "random", "term":
 		for c := 0; c < *cycles && restartOK; c++ {
